@@ -46,7 +46,8 @@ def noise(g, nodes):
 @st.composite
 def _cases(draw):
     prof = dict(gen.PROFILES["struct"], p_repeat_count=0.4, p_or_other=0.2, p_params=0.6, p_appearance=0.3, p_custom_body=0.1,
-                p_external=0.06, p_entities=0.15, p_trigger=0.08, p_calc_on_visible=0.08, p_label_on_hidden=0.15)
+                p_external=0.06, p_entities=0.15, p_trigger=0.08, p_calc_on_visible=0.08, p_label_on_hidden=0.15, p_group_hint=0.12,
+                p_tag_names=0.05)
     g = gen.G(draw, prof)
     form = gen.build_form(draw, prof, g=g)
     if g.p("_", 0.5):
@@ -191,6 +192,9 @@ def evaluate(case) -> Outcome:
         out.fail("C04.instance", _shape_diff_kind(exp, act), f"expected {exp} got {act}")
     out.checked("C04.body")
     cmp_body(out, expected_body(root), actual_body(v.body), "body")
+    # a jr:template copy of each repeat (shared with C02)
+    from vf.props.c02 import check_templates
+    check_templates(out, v, v.root, "C04.template")
     qs = [n for n, _ in model.walk(form["nodes"]) if n["k"] == "q"]
     conts = [n for n, _ in model.walk(form["nodes"]) if n["k"] in ("g", "r")]
     types = {n["c"]["type"].split()[0] for n in qs}
